@@ -188,6 +188,7 @@ func runUciScript(kind string, seed int64, steps []string) string {
 		}
 	}
 	inputClosed := false
+	syncFailed := false
 	for _, st := range steps {
 		st = strings.TrimSpace(st)
 		switch {
@@ -214,12 +215,22 @@ func runUciScript(kind string, seed int64, steps []string) string {
 		case st == "sync":
 			// isready must be answered by readyok
 			ok := false
+			// ten seconds (stretched under load): the deadline is there to tell a dead command loop from a live one, and a
+			// burst of other work on the machine has been seen to delay an answer by more than three seconds; once a sync of
+			// this script has failed, the verdict is in and the later ones do not wait long
+			patience := 10 * time.Second * loadScale()
+			if syncFailed {
+				patience = 500 * time.Millisecond
+			}
 			if !inputClosed {
 				select {
 				case s.in <- "isready":
-					ok = s.waitFor(func(l []string) bool { return containsPrefix(l, "readyok") }, 3*time.Second*loadScale())
-				case <-time.After(3 * time.Second * loadScale()):
+					ok = s.waitFor(func(l []string) bool { return containsPrefix(l, "readyok") }, patience)
+				case <-time.After(patience):
 				}
+			}
+			if !ok {
+				syncFailed = true
 			}
 			if ok {
 				emit("sync")
@@ -389,6 +400,14 @@ func loadScale() time.Duration {
 	load, err := strconv.ParseFloat(f[0], 64)
 	if err != nil {
 		return 1
+	}
+	// the average lags behind a burst: the number of runnable tasks right now (fourth field, "running/total") counts as well
+	if len(f) > 3 {
+		if k := strings.Index(f[3], "/"); k > 0 {
+			if running, err := strconv.ParseFloat(f[3][:k], 64); err == nil && running > load {
+				load = running
+			}
+		}
 	}
 	k := int(2 * load / float64(runtime.NumCPU()))
 	if k < 1 {
